@@ -75,5 +75,21 @@ func genGateFacts(repo string, emit func(name, leanDef string, err error)) {
 			sk = stmtSkeleton(fd.Body.List)
 		}
 		emit(f.name, fmt.Sprintf("/-- %s: %s — %s -/\ndef %s : List String := %s", f.file, f.fn, f.doc, f.name, leanStrList(sk)), nil)
+		if f.guards {
+			// F-07c (repaired in 72c0938): every top-level assignment to a field of the returned validator whose
+			// name is Status. stakingtypes.NewValidator initialises Status to Unbonded and x/evidence drops
+			// equivocation evidence for `validator.IsUnbonded()`: the function must overwrite it.
+			var as []string
+			for _, st := range fd.Body.List {
+				a, ok := st.(*ast.AssignStmt)
+				if !ok || len(a.Lhs) != 1 {
+					continue
+				}
+				if sel, ok := a.Lhs[0].(*ast.SelectorExpr); ok && sel.Sel.Name == "Status" {
+					as = append(as, skelText(st))
+				}
+			}
+			emit("validatorByConsAddrStatusAssignments", fmt.Sprintf("/-- %s: %s — top-level assignments to the Status of the validator it returns (NewValidator's default is Unbonded, for which x/evidence drops equivocation evidence: F-07c) -/\ndef validatorByConsAddrStatusAssignments : List String := %s", f.file, f.fn, leanStrList(as)), nil)
+		}
 	}
 }
